@@ -13,10 +13,15 @@ by the integers the model uses.
 A program is a dict
     {"kind": "tx"|"plain", "mode": "fast"|"locked"|"serializable", "timeout": <u, multiple of 20>,
      "form": "ctx"|"dec", "ops": [op, ...]}
-    op = ["set",k,v] | ["incr",k,n] | ["get",k] | ["del",k] | ["sleep",ticks] | ["raise"] | ["nin",form] | ["nout"]
+    op = ["set",k,v] | ["incr",k,n] | ["get",k] | ["del",k] | ["expire",k(,ttl seconds)] | ["setx",k,v,1|0] | ["sleep",ticks]
+       | ["raise"] | ["nin",form] | ["nout"]          (setx = cache.set(k, v, exist=True|False); its result is recorded as 1/0)
        | ["gc"]  (environment event, not part of the model: an abandoned call of the decorated function is finalised
                   while this task runs; it must not affect this task)
 Keys are small ints (store key "k<i>").  A run is a pure function of (init store, programs, schedule).
+
+`expire` uses real TTLs (default 1 h, far beyond any run: nothing ever expires).  A commit flushes its buffer with one
+`set_many` per TTL group, back to back; the scheduler releases the 2nd, 3rd, ... `set_many` of a commit in the same step
+as the first (one step "set_many" with the union of the pairs) - the model has no TTLs, hence one group.
 """
 from __future__ import annotations
 
@@ -86,6 +91,7 @@ class TxSched:
         self.outcomes: dict[int, Any] = {}
         self._wake: asyncio.Event | None = None
         self.max_steps = 4000
+        self.merged_groups = 0
         self.after_step = None       # callback(tid, label) once the released command has run and the loop is quiet
 
     async def point(self, label=None):
@@ -146,6 +152,19 @@ class TxSched:
         last = None
         while True:
             await self._quiesce(loop)
+            if last is not None and last[1] and last[1][0] == "set_many":
+                # the next TTL group of the same commit: same step
+                nxt = self.parked.get((last[0], ""))
+                if nxt is not None and nxt[1] and nxt[1][0] == "set_many":
+                    fut, label = self.parked.pop((last[0], ""))
+                    if not self.trace or self.trace[-1][:2] != ("run", last[0]):
+                        raise SchedError("set_many groups of one commit are not consecutive")
+                    merged = ("set_many", tuple(sorted(last[1][1] + label[1])))
+                    self.trace[-1] = ("run", last[0], merged)
+                    last = (last[0], merged)
+                    self.merged_groups += 1
+                    fut.set_result(None)
+                    continue
             if last is not None and self.after_step is not None:
                 self.after_step(*last)
             last = None
@@ -299,6 +318,10 @@ def execute(init: dict, programs: list[dict], schedule: list[int], snapshot=True
                         results.append(await cache.get(key_name(op[1])))
                     elif op[0] == "del":
                         await cache.delete(key_name(op[1]))
+                    elif op[0] == "setx":
+                        results.append(1 if await cache.set(key_name(op[1]), op[2], exist=bool(op[3])) else 0)
+                    elif op[0] == "expire":
+                        await cache.expire(key_name(op[1]), op[2] if len(op) > 2 else 3600)
                     elif op[0] == "sleep":
                         await asyncio.sleep(op[1] * 5 / U)
                     elif op[0] == "raise":
@@ -357,6 +380,7 @@ def execute(init: dict, programs: list[dict], schedule: list[int], snapshot=True
             "final_locks": {k: tokens.get(v, -1) for k, v in locks.items()},
             "branching": sched.branching,
             "choices": sched.choices,
+            "merged_groups": sched.merged_groups,
             "end": round((CLOCK.t - vtime.BASE) * U),
         }
 
